@@ -39,16 +39,6 @@ func (m *FieldMap) Get(field string) *FMEntry {
 	return nil
 }
 
-func (m *FieldMap) Sources() map[string]bool {
-	out := map[string]bool{}
-	for _, e := range m.Entries {
-		if e.SrcField != "" {
-			out[e.SrcType+"."+e.SrcField] = true
-		}
-	}
-	return out
-}
-
 func typeShort(t types.Type) string {
 	if p, ok := t.(*types.Pointer); ok {
 		t = p.Elem()
